@@ -137,3 +137,6 @@ def run(ctx):
                           site='nn.nearest_neighbor_tcrdist[%s]' % ('no-candidate' if g[0] != 'ok' and not expected else 'value'))
         if not df.equals(before):
             ctx.violation('property', 'nearest_neighbor_tcrdist modified its input table', dict(rows=rows), site='nn.nearest_neighbor_tcrdist')
+    # coverage audit: defaults, kinds of tables, partial tcrdist_kwargs, **kwargs, radii at attained values, sizes, histories
+    import c14_tcrdist_wide
+    c14_tcrdist_wide.run(ctx, la, lb)
